@@ -130,7 +130,7 @@ def inits(draw):
 
 
 def run(ctx, tier, seed, idx, nshards):
-    n = {"quick": 60, "thorough": 500}[tier]
+    n = {"quick": 120, "thorough": 800}[tier]
     stateful.run(ctx, Sim, ops_for(24), inits(), n_examples=n, max_steps=12 if tier == "quick" else 25, seed=seed)
 
 
